@@ -345,6 +345,9 @@ func (it *Interp) runPath(fn *ssa.Function, res *UnitResult) (stop bool) {
 				}
 				res.Unsupported = "engine: " + e.Error() + " @ " + engineSite()
 				stop = true
+			case mergeFail:
+				res.Unsupported = "engine: values of different shape meet at a symbolic index/guard (merge) @ " + engineSite()
+				stop = true
 			default:
 				if os.Getenv("SYMGO_DEBUG") != "" {
 					fmt.Fprintf(os.Stderr, "ENGINE PANIC %v\n%s\n", r, debug.Stack())
@@ -393,7 +396,7 @@ func main() {
 	fs.StringVar(&opt.Params, "params", "", "unit-regexp:name=lo..hi[;...] instantiates matching units once per value")
 	fs.IntVar(&opt.RLimit, "rlimit", 0, "z3 resource limit per query (deterministic unknowns)")
 	var fallbacks string
-	fs.StringVar(&fallbacks, "fallback", "z3,cvc5-int", "solvers tried when the primary answers unknown")
+	fs.StringVar(&fallbacks, "fallback", "cvc5-int,z3", "solvers tried when the primary answers unknown")
 	fs.IntVar(&opt.FallbackMs, "fbtimeout", 60000, "fallback per-query ms")
 	var cpuprof string
 	fs.StringVar(&cpuprof, "cpuprofile", "", "")
